@@ -23,7 +23,7 @@ CHECKS = {
     design='4 C15', note=TB + '; oracle/nonneg.json lists the lines the forms define as non-negative'),
  'C11': dict(
     technique='bounded symbolic execution of the real input layer on a symbolic string (code-point array + length, z3 decides path feasibility); float()/int()/re as symbolic DFAs validated against CPython; finiteness by SMT query',
-    text='For each input class (String, Boolean, Integer, Float, Enum with/without empty, the two shipped regex inputs, SSN) the real InputStore.__getitem__, valid(), value() and prompt_input run on a symbolic ASCII string of bounded length (4-11 characters by class); every feasible path is a region of input texts on which the assertions (value => valid and declared type and finite; rejected => InvalidInput; present <=> no MissingInput; prompt loop returns only valid text) are evaluated, finiteness as an SMT query. Holds for every ASCII text up to the bound; witness texts are replayed on the real code.',
+    text='For each input class (String, Boolean, Integer, Float, Enum with/without empty, the two shipped regex inputs, SSN) the real InputStore.__getitem__, valid(), value() and prompt_input run on a symbolic ASCII string of bounded length (4-11 characters by class); every feasible path is a region of input texts on which the assertions (value => valid and declared type and finite - and, for an SSN, nine digits; rejected => InvalidInput; present <=> no MissingInput; prompt loop returns only valid text) are evaluated, finiteness as an SMT query. Holds for every ASCII text up to the bound; witness texts are replayed on the real code.',
     design='4 C11', note=TB + '; grammar DFAs of float()/int() and the two regexes are the stub contract (self-test compares them with CPython on an adversarial corpus); non-ASCII outside'),
  'C12': dict(
     technique='bounded symbolic execution of the real TypedField/FloatField/EnumField.value on an SMT-chosen tagged return value with symbolic payload; rounding grid/band by SMT query',
@@ -39,7 +39,7 @@ CHECKS = {
     design='4 C20', note=TB + '; a deterministically failing line after a prompt is not available in the shipped forms (covered through the unsupported-form abort only)'),
  'C19': dict(
     technique='bounded symbolic execution of the real PDFFiller._create_fdf on a symbolic printable-ASCII value followed by a symbolic reference decoder of the PDF literal-string syntax (z3: decoded == value and the dictionary closes, on every path); the real PDFFiller.fill with stubbed pdftk on SMT-chosen subsets of the sections of a solved solution',
-    text='The real _create_fdf writes a field whose value is a symbolic printable-ASCII string (<= 3 quick / 4 thorough characters) into a captured file; a reference decoder of PDF literal strings (balanced parentheses, backslash escapes, octal) runs symbolically over the captured text and z3 must show decode(fdf(v)) == v and that the entry closes right after it, for every such string. The real fill() then runs with a recording pdftk stub on every subset (SMT-enumerated) of the sections of a real solved solution per year: the fill_form commands must name exactly the fileable forms, once each, in (jurisdiction, sequence) order, never an input-only form or worksheet. Witness values are replayed through the real _create_fdf.',
+    text='The real _create_fdf writes a field whose value is a symbolic printable-ASCII string (<= 3 quick / 4 thorough characters) into a captured file; a reference decoder of PDF literal strings (balanced parentheses, backslash escapes, octal) runs symbolically over the captured text and z3 must show decode(fdf(v)) == v and that the entry closes right after it, for every such string. The real fill() then runs with a recording pdftk stub on every subset (SMT-enumerated) of the sections of a real solved solution per year: the fill_form commands must name exactly the fileable forms, once each, in (jurisdiction, sequence) order, never an input-only form or worksheet. Witness values are replayed through the real _create_fdf. If the implementation does something to the value the string encoding cannot follow (e.g. a regular expression), those paths are INCONCLUSIVE and a supplementary, violation-only pass sends every word over one representative per character class of the decoder through the real code.',
     design='4 C19', note=TB + '; the reference decoder (PDF 32000-1 7.3.4.2) is the oracle; values longer than the bound and non-ASCII text outside'),
  'C14': dict(
     technique='bounded symbolic execution of the real to_string/from_string pairs on symbolic values (exact digit-chain rendering, float()/int() grammar DFAs) with z3 deciding from_string(to_string(v)) == v per path; INI layer and year tag on solver-generated witness solutions through the real solve/write/fill path',
@@ -55,7 +55,7 @@ CHECKS = {
     design='4 C08', note=TB + '; oracle/statutory.json transcribed from Rev. Proc. 2020-45 / 2021-45 / 2022-38, form instructions and NC D-401 (it agreed with the shipped code on all but the 3 defects that were fixed)'),
  'C16': dict(
     technique='relational SMT queries: per-line summary invariance under swapping the two copies of an input form (one query R(x,o1) and R(pi x,o2) and o1 != o2 per line, inductive along the read graph); two renamed copies of the whole-return model differing in one input for the monotonicity / exact-response claims',
-    text='(a) For K=2 copies of each input form (W-2, 1099-INT/DIV/R/G, 1098) and every line that reads a numbered copy, z3 shows that no values make the line differ when copies 0 and 1 are swapped (per-payer listing lines exempt); with an acyclic read graph the whole return is then invariant. (b) Wages up => total tax not lower, deduction up => not higher, withholding + d => refund-minus-owed + d are posed as relational queries on two copies of the whole-return model (both solved, figure_tax = the schedule term C07 verifies) under a time cap; queries that time out are reported INCONCLUSIVE and named in the evidence, never counted as discharged. Witnesses are replayed as two real solves.',
+    text='(a) For K=2 copies of each input form (W-2, 1099-INT/DIV/R/G, 1098) and every line that reads a numbered copy, z3 shows that no values make the line differ when copies 0 and 1 are swapped (per-payer listing rows are shown equivariant instead: row0(x) == row1(pi x), and the lines reading them are checked under the joint swap of copies and rows); with an acyclic read graph the whole return is then invariant. A sat model is replayed on the real line definition (as numbered / renumbered) before it is reported. (b) Wages up => total tax not lower, deduction up => not higher, withholding + d => refund-minus-owed + d are posed as relational queries on two copies of the whole-return model (both solved, figure_tax = the schedule term C07 verifies) under a time cap; queries that time out are reported INCONCLUSIVE and named in the evidence, never counted as discharged. Witnesses are replayed as two real solves.',
     design='4 C16', note=TB + '; lines with more than 400 paths (NC withholding lines at K=2) and timed-out relational queries are inconclusive'),
  'C02': dict(
     technique='SMT queries over a whole-return model composed from path-exhaustive symbolic summaries of the real line definitions: solved and |line - official instruction(other lines)| > tolerance must be unsat; instructions parsed by a grammar from the accessibility text of the bundled IRS templates (re-extracted each run)',
@@ -71,7 +71,7 @@ CHECKS = {
 ALGO_TEXT = ('The real Solver, DependencyTracker, ValueStore, FormAccessor and InputStore run on generated form programs whose line behaviour '
              '(read line / read input / not-implemented / return, branching on uninterpreted predicates), input presence, prompt answers/refusals and attempt order '
              '(symbolic ranks in place of sort_keys) are SMT choices; z3 decides feasibility and the explorer enumerates every case inside the bound (configs listed in the evidence), '
-             'values being EUF terms. %s Violating paths are turned into concrete programs and replayed on the uninstrumented code. (Q1 of DESIGN.md: finite-domain exploration, '
+             'values being EUF terms; lines read their own form by relative name (so the accessor binding is observable) and one configuration requests two numbered copies of a form together. %s Violating paths are turned into concrete programs and replayed on the uninstrumented code. (Q1 of DESIGN.md: finite-domain exploration, '
              'the end-state assertions are evaluated per path.)')
 ALGO_NOTE = TB + '; the oracle contract "a line is a deterministic function of what it reads"; unknown input names excluded (C10)'
 ALGO = {
